@@ -207,7 +207,7 @@ class Found:
         return len(self.items) >= self.limit
 
 
-def finalize_violation(spec, res, m, ref, repo, max_execs):
+def finalize_violation(spec, res, m, ref, repo, max_execs, wall_s=None):
     """Explicit schedule -> verify -> minimise -> verify in a new zygote -> replay file."""
     sig = M.signature_of(m)
     h = spec['hashseed']
@@ -225,7 +225,7 @@ def finalize_violation(spec, res, m, ref, repo, max_execs):
             return out
         if not test_many([rspec])[0]:
             return None, 'explicit schedule did not reproduce the violation'
-        mspec, used = M.minimise(rspec, sig, test_many, max_execs)
+        mspec, used = M.minimise(rspec, sig, test_many, max_execs, wall_s)
     # final confirmation in a brand-new zygote process
     with Pool([h], repo) as fp:
         r = fp.z[0].call(mspec)
@@ -242,7 +242,7 @@ def finalize_violation(spec, res, m, ref, repo, max_execs):
     return data, None
 
 
-def explore(tier, seed, repo, budget_s, stats, found, ref, probes, pool, t_end, n_s1, n_s2, instr_frac, sa_frac):
+def explore(tier, seed, repo, budget_s, stats, found, ref, probes, pool, t_end, n_s1, n_s2, instr_frac, sa_frac, chunk=4800):
     c = corpus()
     harness = []
 
@@ -258,18 +258,30 @@ def explore(tier, seed, repo, budget_s, stats, found, ref, probes, pool, t_end, 
         return None
 
     base = seed * 1_000_000
-    for sub, n, g in (('S1', n_s1, lambda s: gen.gen_s1(s, c, ref, instr_frac, sa_frac)), ('S2', n_s2, lambda s: gen.gen_s2(s, c, ref))):
-        jobs = []
-        for i in range(n):
-            s = base + i
-            spec = gen.attach(g(s), ref, probes)
+    # one interleaved job stream (two S1 runs, then one S2 history, ...) under one deadline, so that a
+    # long-tailed run of one kind cannot starve the other kind
+    jobs = []
+    i1 = i2 = 0
+    while i1 < n_s1 or i2 < n_s2:
+        for _ in range(2):
+            if i1 < n_s1:
+                spec = gen.attach(gen.gen_s1(base + i1, c, ref, instr_frac, sa_frac), ref, probes)
+                jobs.append((spec['hashseed'], spec))
+                i1 += 1
+        if i2 < n_s2:
+            spec = gen.attach(gen.gen_s2(base + i2, c, ref), ref, probes)
             jobs.append((spec['hashseed'], spec))
-        pool.run_jobs(jobs, on_result=on, deadline=t_end[sub])
-        if harness:
-            spec, err = harness[0]
-            raise HarnessError('%s seed %s: %s' % (sub, spec['seed'], err))
-        if found.full():
-            break
+            i2 += 1
+        if len(jobs) >= chunk:
+            pool.run_jobs(jobs, on_result=on, deadline=t_end)
+            jobs = []
+            if harness or found.full() or time.time() > t_end:
+                break
+    if jobs and not harness and not found.full():
+        pool.run_jobs(jobs, on_result=on, deadline=t_end)
+    if harness:
+        spec, err = harness[0]
+        raise HarnessError('%s seed %s: %s' % (spec['sub'], spec['seed'], err))
 
 
 def main(tier='quick', seed=0, repo=None):
@@ -279,11 +291,11 @@ def main(tier='quick', seed=0, repo=None):
     probes = c['probes']
     budget_s = float(os.environ.get('VERIF_BUDGET_S', '900' if tier == 'thorough' else '75'))
     if tier == 'quick':
-        n_s1, n_s2, n_s3, s3_slice, instr_frac, sa_frac, max_min = 1300, 1200, 16, 260, 0.08, 0.0, 150
-        fr = {'S1': 0.55, 'S2': 0.2}
+        n_s1, n_s2, n_s3, s3_slice, instr_frac, sa_frac, max_min = 1600, 800, 16, 260, 0.08, 0.0, 150
+        fr = 0.72
     else:
         n_s1, n_s2, n_s3, s3_slice, instr_frac, sa_frac, max_min = 10 ** 7, 10 ** 7, 64, None, 0.25, 0.15, 300
-        fr = {'S1': 0.6, 'S2': 0.2}
+        fr = 0.8
     stats = Stats()
     found = Found()
     s3_viol = []
@@ -300,7 +312,7 @@ def main(tier='quick', seed=0, repo=None):
         for op in twice[:5]:
             spec = {'cmd': 'sim', 'property': PROP, 'sub': 'S2', 'seed': -1, 'hashseed': 0, 'families': [], 'clients': [[op, op]],
                     'gran': 'line', 'scope': ['repo'], 'cat_mode': 'op', 'rnd_mode': 'op', 'meta_share': False,
-                    'strategy': {'kind': 'none'}, 'sched_seed': 0, 'faults': [], 'gcs': []}
+                    'strategy': {'kind': 'none'}, 'sched_seed': 0, 'faults': [], 'gcs_at': []}
             spec = gen.attach(spec, ref, [])
             res = sim_pool.z[0].call(spec)
             if 'harness_error' in res:
@@ -311,7 +323,7 @@ def main(tier='quick', seed=0, repo=None):
                 raise HarnessError('event counting changed the observable of %r but a plain repetition does not' % (op,))
         now = time.time()
         left = max(10.0, budget_s - (now - t0))
-        t_end = {'S1': now + left * fr['S1'], 'S2': now + left * (fr['S1'] + fr['S2'])}
+        t_end = now + left * fr
         if not found.full():
             explore(tier, seed, repo, budget_s, stats, found, ref, probes, sim_pool, t_end, n_s1, n_s2, instr_frac, sa_frac)
         sim_pool.close()
@@ -341,7 +353,7 @@ def main(tier='quick', seed=0, repo=None):
         nviol = 0
         known = report.load_known(PROP)
         for spec, res, m in found.items:
-            data, err = finalize_violation(spec, res, m, ref, repo, max_min)
+            data, err = finalize_violation(spec, res, m, ref, repo, max_min, 45 if tier == 'quick' else 240)
             if data is None:
                 raise HarnessError('violation of seed %s could not be replayed: %s (signature %r)' % (spec['seed'], err, M.signature_of(m)))
             path = report.write_replay(PROP, '%s-%s' % (spec['sub'], spec['seed']), data)
